@@ -594,4 +594,5 @@ def run(ctx):
     from rules import c08_sweep, c08_derived, c08_eval
     c08_sweep.run_rule(ctx, repo)
     c08_derived.run_rule(ctx, repo)
+    c08_derived.every_path_rule(ctx, repo)
     c08_eval.run_rule(ctx, repo)
